@@ -22,6 +22,8 @@ int w08_param_count(int dynamic, int i);
 int w08_add_instance(int name, int nfree, int nargs, int src_arguments, int pre_mapped, int src_kind, int ns);
 int w08_inst(int what, int i);
 int w08_mapped_count(int i);
+int w08_src_mapped_count(void);
+int w08_src_keeps(int k);
 
 void h_c08_location(void)
 {
@@ -154,6 +156,12 @@ void h_c08_instance(void)
     }
     __CPROVER_assert(w08_mapped_count(k) == nargs + inherited, "c08.add_instance.the-mapping-is-exactly-the-inherited-bindings-plus-the-new-ones");
     __CPROVER_assert(w08_inst(8, k), "c08.add_instance.instance-refers-to-the-instantiated-template");
+    /* the instantiated instance may be instantiated again (Q1 = P(1); Q2 = P(2);): it keeps its own bindings */
+    {
+        int kept = 0;
+        for (int i = 0; i < 2; i++) if (i < nsrc && ((pre >> i) & 1)) { kept++; __CPROVER_assert(w08_src_keeps(i), "c08.add_instance.the-instantiated-instance-keeps-its-own-bindings"); }
+        __CPROVER_assert(w08_src_mapped_count() == kept, "c08.add_instance.the-instantiated-instance-is-left-unchanged");
+    }
     if (kind == 1 && nargs > 0) __CPROVER_assert(0, "reach:partial-instance-instantiated-with-arguments");
     if (inherited > 0) __CPROVER_assert(0, "reach:inherited-binding");
     REACH;
